@@ -433,6 +433,17 @@ theorem C10_zoom_shift_in_bounds (shape : List Nat) (order : Nat) (starts : List
   rw [dot_cStrides]
   exact ravelZ_range shape q hq
 
+/-- **B8, zoom_shift, the per-axis tables.** The filter coordinates `ff[r] = fcoordinates[r + fi·rank]` produced by
+the odometer have one entry per axis and stay in `[0, order]` for every `fi` (any number of steps, any strides):
+so `splvals[r][kk][ff[r]]` and `edge_offsets[r][kk][ff[r]]` (vectors of `order+1` entries) are read in range, and
+the running `off` stored in `foffsets[fi]` is `Σ stride(r)·ff[r]`. -/
+theorem C10_zoom_shift_tables_in_bounds (order : Nat) (strides : List Int) (fi : Nat) :
+    (zsOdo order strides fi).1.length = strides.length ∧
+    (∀ f ∈ (zsOdo order strides fi).1, 0 ≤ f ∧ f < (order : Int) + 1) ∧
+    (zsOdo order strides fi).2 = dot strides (zsOdo order strides fi).1 := by
+  obtain ⟨h1, h2, h3⟩ := zsOdo_spec order (by omega) strides fi
+  exact ⟨h1, fun f hf => by have := h2 f hf; omega, h3⟩
+
 /-- **B8, spline_filter1d.** For every line length (the kernel returns at once when `len ≤ 1`), every number
 of poles and every value — positive, zero, negative, larger than the line — of the horizon
 `max = (int)ceil(log_tolerance / log|pole|)` of the truncated initial sum, every `line[stride·ll]` of the
@@ -508,6 +519,7 @@ example : inside [3, 4] [2, 0] = true ∧ dot [4, 1] [2, 0] + ([4, 1] : List Int
     inside [3, 4] ([2, 0].set 1 3) = true := by decide
 example : zsAccesses [4, 5] (cStrides [4, 5]) 3 [-1, 3] =
     [8, 9, 8, 7, 3, 4, 3, 2, 8, 9, 8, 7, 13, 14, 13, 12] := by decide
+example : zsOdo 3 [5, 1] 7 = ([1, 3], 8) ∧ zsOdo 3 [5, 1] 16 = ([0, 0], 0) := by decide
 example : zsStarts .reflect 3 [4, 5] [0, 4] = some [-1, 3] ∧ zsStarts .constant 3 [4, 5] [-1, 4] = none ∧
     zsFold 5 (-3) = 3 ∧ zsFold 5 6 = 2 ∧ zsFold 1 9 = 0 := by decide
 example : (splineAccesses 5 [3, 40]).length = 61 ∧ allOk (splineAccesses 5 [3, 40]) = true ∧
